@@ -114,6 +114,8 @@ PmCheck(c, op, o, ev) ==
   \cup (IF ev.e = "kill" /\ (ev.pid \notin CurPids(c, op) \/ ev.s # "ok" \/ \E i \in DOMAIN op.kills : op.kills[i] = ev.pid)
         THEN {"C18_ShutdownSignals"} ELSE {})
   \cup (IF ev.e = "kill" /\ op.shutDue = 0 THEN {"C18_SpuriousShutdown"} ELSE {})
+  (* once the workers have been told to stop, none of them is signalled a second time (SIGTERM from terminate() either) *)
+  \cup (IF ev.e = "terminate" /\ op.killing THEN {"C18_ShutdownSignals"} ELSE {})
   \cup (IF ev.e = "start" /\ op.killing THEN {"C18_StartAfterShutdown"} ELSE {})
   \cup (IF ev.e = "start" /\ op.shutClean /\ op.shutDue # 0 /\ op.shutDue <= op.tick THEN {"C18_StartAfterShutdown"} ELSE {})
   \cup (IF ev.e = "ret" /\ ev.n = 0
